@@ -37,8 +37,8 @@ BOUNDS = {
     'quick': 'configurations const(N<=3,M=2,B=4), adaptive(N=1,M=2,B=4; '
              'N=2,M=1,B=3), cond-const(N<=2,M=2,B=3), cond-fresh(N=1,M=2,B=3; '
              'N=2,M=1,B=3), cond-mixed (one unconditioned + one fresh-condition process, N=2,M=2,B=3), empty(N=0), precision in {None,0}; every force flag '
-             'symbolic; K = B+2 passes per call',
-    'thorough': 'const(N<=3,M<=3,B<=6), adaptive(N=2,M=2,B=3), '
+             'symbolic; K = B+2 passes per call; offgrid: precision 0 with concrete run lengths 0.5/1.5/2.5/1.0 and integer timesteps (N=0,1,2); dyadic: concrete timesteps 0.25/0.5/1.5 and run lengths 0.75/1.5/2.0 (times concrete floats chosen by forking, exact in binary)',
+    'thorough': 'const(N=1,M=3,B=6; N=2,M=3,B=4; N=3,M=2,B=4; N=2,M=2,B=8), adaptive(N=1,M=3,B=4; N=2,M=2,B=3), '
                 'cond-const(N=3,M=2,B=4), cond-fresh(N=2,M=2,B=3), wide '
                 '(B=10^6, K=6)',
 }
@@ -73,9 +73,17 @@ def jobs(tier):
         J.append(_cfg('condfresh-adaptive-N1', 1, 2, 3, 'adaptive', 'fresh',
                       tier))
         J.append(_cfg('condmixed-N2-M2', 2, 2, 3, 'const', 'mixed', tier))
+        # off-grid run lengths with a precision: concrete dyadic intervals
+        for N in (0, 1, 2):
+            J.append(_cfg('offgrid-p0-N%d' % N, N, 2, 3, 'const', 'none', tier,
+                          precision=0, ts_grid=[1, 2],
+                          iv_grid=[0.5, 1.5, 2.5, 1.0], K=6, offgrid=True))
+        J.append(_cfg('dyadic-N2', 2, 2, 3, 'const', 'none', tier,
+                      ts_grid=[0.5, 1.5, 0.25], iv_grid=[0.75, 1.5, 2.0], K=12,
+                      offgrid=True))
     else:
         J.append(_cfg('empty', 0, 3, 6, 'const', 'none', tier))
-        for N, M, B in ((1, 3, 6), (2, 3, 5), (3, 2, 4), (2, 2, 8)):
+        for N, M, B in ((1, 3, 6), (2, 3, 4), (3, 2, 4), (2, 2, 8)):
             J.append(_cfg('const-N%d-M%d-B%d' % (N, M, B), N, M, B, 'const',
                           'none', tier))
         J.append(_cfg('const-N2-p0', 2, 2, 4, 'const', 'none', tier,
@@ -86,6 +94,14 @@ def jobs(tier):
         J.append(_cfg('condfresh-N2', 2, 2, 3, 'const', 'fresh', tier))
         J.append(_cfg('condfresh-adaptive-N2', 2, 1, 3, 'adaptive', 'fresh',
                       tier))
+        for N in (0, 1, 2):
+            J.append(_cfg('offgrid-p0-N%d' % N, N, 3, 3, 'const', 'none', tier,
+                          precision=0, ts_grid=[1, 2, 3],
+                          iv_grid=[0.5, 1.5, 2.5, 1.0, 0.25], K=8,
+                          offgrid=True))
+        J.append(_cfg('dyadic-N2', 2, 2, 3, 'const', 'none', tier,
+                      ts_grid=[0.5, 1.5, 0.25, 1.0], iv_grid=[0.75, 1.5, 2.0],
+                      K=14, offgrid=True))
         J.append(_cfg('wide-N2', 2, 2, 10 ** 6, 'const', 'none', tier, K=6,
                       wide=True))
         J.append(_cfg('wide-adaptive-N2', 2, 1, 10 ** 6, 'adaptive', 'none',
@@ -144,7 +160,7 @@ def body(ctx, cfg):
         try:
             sched.drive(ctx, cfg, run)
         except UnwindCut:
-            if not cfg.get('wide'):
+            if not cfg.get('wide') and not cfg.get('offgrid'):
                 ctx.claim('C03.terminates', False, sig=sig,
                           info=lambda: 'more than K=%d passes' % cfg['K'])
             raise
@@ -201,10 +217,10 @@ def _claims(ctx, cfg, run, sig):
             if q['call'] is None and q['cond'] is None:
                 ctx.goal('deferral across a call boundary')
         for c in p.ncalls:
-            if ctx.symbolic and c['force'] and \
-                    'truncated interval' not in ctx.goals and \
-                    ctx.solver.check_assuming(
-                        (c['start'] + c['asked'] > c['end']).s) == 'sat':
+            tr = c['start'] + c['asked'] > c['end']
+            if c['force'] and 'truncated interval' not in ctx.goals and (
+                    tr is True or (ctx.symbolic and tr is not False and
+                                   ctx.solver.check_assuming(tr.s) == 'sat')):
                 ctx.goal('truncated interval')
     # a pass in which every polled process was quiet
     by_pass = {}
